@@ -1,5 +1,6 @@
 import Driver.Proto
 import PqModel.IoFault
+import PqModel.IoFaultSrc
 
 /-! Ops of C14.
 
@@ -19,6 +20,10 @@ import PqModel.IoFault
 * `readat.wrap <want> <n> <err 0/1>` — `readAt` of file.go: `ok <n> <err>`.
 * `io.bufio <cap> <failAt|-> <mode> <ops>` — the bufio mirror alone: ops `w<n>` `s<n>` `r<n>` `f`.
   Answer: `ok <n:err per op> <bytes held> <bytes buffered> <sticky 0/1> <sink trace>`.
+* `io.copysrc <cap|-> <failAt|-> <mode> <pre> <len> <cut|-> <eof 0/1> <checked 0/1>` — the copy site of
+  the verbatim column-chunk path: after a `Write` of `pre` bytes, `copySection` of a `len`-byte
+  section whose source stops after `cut` bytes (`-` = never) with io.EOF (`eof` = 1) or another error.
+  Answer: `ok <err 0/1> <offset> <bytes accepted by the chain> <bytes held by the sink>`.
 * `open.model <enc 0/1> <hex>` / `open.spec …` — trailer stage of OpenFile:
   `ok <footer hex>` | `err <class>`. -/
 namespace Driver.Ops.C14
@@ -151,6 +156,17 @@ def runBufio (cap : Nat) (f : Fault) (ops : List String) : Option String := do
   let buffered := match u.bw with | some b => b.buf.length | none => 0
   some s!"ok {showList id outs} {u.sk.held.length} {buffered} {if u.berr then 1 else 0} {showTrace u.sk.trace}"
 
+def runCopySrcOn {σ} (m : SinkM σ) (s0 : σ) (cap : Option Nat) (pre len : Nat) (f : Option SrcFault)
+    (checked : Bool) : String :=
+  let w0 := (execOp m (initW s0 cap) (Op.write "site" (payload 0 pre))).1
+  let r := copySection m checked w0 (payload pre len) f
+  s!"ok {if r.2 then 1 else 0} {r.1.offset} {r.1.u.deliv.length} {r.1.u.sk.held.length}"
+
+def runCopySrc (cap : Option Nat) (sink : AnyFault) (pre len : Nat) (f : Option SrcFault) (checked : Bool) : String :=
+  match sink with
+  | .off s => runCopySrcOn (faultSink s) false cap pre len f checked
+  | .call s => runCopySrcOn (callSink s) (0, false) cap pre len f checked
+
 def showOpen (r : Except OpenErr Bytes) : String :=
   match r with
   | .ok ft => s!"ok {toHex ft}"
@@ -185,6 +201,13 @@ def handle (toks : List String) : Option String :=
     match parseNat? cap, parseFault? failAt mode with
     | some cap, some f => if cap == 0 then "bad-op" else (runBufio cap f (splitList ops)).getD "bad-op"
     | _, _ => "bad-op"
+  | ["io.copysrc", cap, failAt, mode, pre, len, cut, eof, checked] => some <|
+    match (if cap == "-" then some none else (parseNat? cap).map some), parseAnyFault? failAt mode,
+        parseNat? pre, parseNat? len, (if cut == "-" then some none else (parseNat? cut).map some) with
+    | some cap, some sink, some pre, some len, some cut =>
+      if cap == some 0 || !(eof == "0" || eof == "1") || !(checked == "0" || checked == "1") then "bad-op"
+      else runCopySrc cap sink pre len (cut.map (fun c => ⟨c, eof == "1"⟩)) (checked == "1")
+    | _, _, _, _, _ => "bad-op"
   | ["open.model", enc, hex] => some <|
     match parseHex? hex with
     | some b => if enc == "0" || enc == "1" then showOpen (openModel (enc == "1") b) else "bad-op"
